@@ -3,4 +3,5 @@ import GeoVerif.Ops.Lcoe
 import GeoVerif.Ops.CashFlow
 import GeoVerif.Ops.Capex
 import GeoVerif.Ops.Plant
+import GeoVerif.Ops.Reservoir
 /-! Everything the driver needs (import-free models + ops). -/
